@@ -57,6 +57,7 @@ type Ctx struct {
 	chaCG    *callgraph.Graph
 	vtaCG    *callgraph.Graph
 
+	extraOverlay map[string]string // variants: repo-relative file → contents
 	declOf map[*types.Func]*ast.FuncDecl
 	pkgOf  map[*types.Func]*packages.Package
 	nFuncs int
@@ -90,7 +91,7 @@ func goEnv() []string {
 // extraOverlay maps repo-relative file names to replacement contents (used by
 // the self-test variants only).
 func Load(repo, tier string, needSSA bool, extraOverlay map[string]string) (*Ctx, error) {
-	c := &Ctx{Repo: repo, Tier: tier, PkgByPath: map[string]*packages.Package{}, SSA: map[string]*ssa.Package{}}
+	c := &Ctx{Repo: repo, Tier: tier, PkgByPath: map[string]*packages.Package{}, SSA: map[string]*ssa.Package{}, extraOverlay: extraOverlay}
 	overlay := map[string][]byte{}
 	pfile := filepath.Join(repo, "pkg/parsing/parser/parser.go")
 	if b, err := os.ReadFile(pfile); err != nil || len(strings.TrimSpace(string(b))) == 0 {
@@ -322,4 +323,13 @@ func IsModuleFunc(f *ssa.Function) bool {
 		return strings.HasPrefix(f.Object().Pkg().Path(), modPath)
 	}
 	return false
+}
+
+// ReadRepoFile reads a (non-Go) source file of the repository, honouring the
+// variant overlay so that self-test variants of e.g. mlr.bnf are seen.
+func (c *Ctx) ReadRepoFile(rel string) ([]byte, error) {
+	if s, ok := c.extraOverlay[rel]; ok {
+		return []byte(s), nil
+	}
+	return os.ReadFile(filepath.Join(c.Repo, rel))
 }
